@@ -211,4 +211,82 @@ theorem guard_geodeticToGeocentric (d : Datum α) (lon lat h : α) :
         let rn := d.a / sqrt (1.0e0 - d.es * sin2)
         pure ((rn + h) * cosLat * cos lon, (rn + h) * cosLat * sin lon, (rn * (1.0 - d.es) + h) * sinLat)) := rfl
 
+
+/-! ## constructor guards of the conics (wave 5): the symmetric-parallels test and the tangent-cone test, with the
+whole constructor restated so that the POSITION of each guard is part of the statement -/
+
+theorem guard_initAea (s : SR α) :
+    initAea s =
+      (let err := if lt (Gen.aea_AEA_cond_lt_1_l s) Gen.aea_AEA_cond_lt_1_r then some Err.aeaParallels else none
+       let temp := Gen.aea_AEA_temp_1 s
+       let es := Gen.aea_AEA_es_1 temp
+       let e3 := Gen.aea_AEA_e3_1 es
+       let sin_po := Gen.aea_AEA_sin_po_1 s
+       let cos_po := Gen.aea_AEA_cos_po_1 s
+       let con := Gen.aea_AEA_con_1 sin_po
+       let ms1 := Gen.aea_AEA_ms1_1 e3 sin_po cos_po
+       let qs1 := Gen.aea_AEA_qs1_1 e3 sin_po
+       let sin_po := Gen.aea_AEA_sin_po_2 s
+       let cos_po := Gen.aea_AEA_cos_po_2 s
+       let ms2 := Gen.aea_AEA_ms2_1 e3 sin_po cos_po
+       let qs2 := Gen.aea_AEA_qs2_1 e3 sin_po
+       let sin_po := Gen.aea_AEA_sin_po_3 s
+       let qs0 := Gen.aea_AEA_qs0_1 e3 sin_po
+       let ns0 := if gt (Gen.aea_AEA_cond_gt_1_l s) Gen.aea_AEA_cond_gt_1_r then Gen.aea_AEA_ns0_1 ms1 ms2 qs2 qs1 else Gen.aea_AEA_ns0_2 con
+       let c := Gen.aea_AEA_c_1 ms1 ns0 qs1
+       let rh := Gen.aea_AEA_rh_1 s c ns0 qs0
+       ⟨s, e3, ns0, c, rh, err⟩) := rfl
+
+theorem guard_initLcc (s : SR α) :
+    initLcc s =
+      (let s := if isNaN s.lat2 then { s with lat2 := Gen.lcc_LCC_thisLat2_1 s } else s
+       let s := if isNaN s.k0 then { s with k0 := Gen.lcc_LCC_thisK0_1 } else s
+       let s := if isNaN s.x0 then { s with x0 := Gen.lcc_LCC_thisX0_1 } else s
+       let s := if isNaN s.y0 then { s with y0 := Gen.lcc_LCC_thisY0_1 } else s
+       if lt (Gen.lcc_LCC_cond_lt_1_l s) Gen.lcc_LCC_cond_lt_1_r then .error .lccParallels else
+       let temp := Gen.lcc_LCC_temp_1 s
+       let e := Gen.lcc_LCC_E_1 temp
+       let sin1 := Gen.lcc_LCC_sin1_1 s
+       let cos1 := Gen.lcc_LCC_cos1_1 s
+       let ms1 := Gen.lcc_LCC_ms1_1 e sin1 cos1
+       let ts1 := Gen.lcc_LCC_ts1_1 s e sin1
+       let sin2 := Gen.lcc_LCC_sin2_1 s
+       let cos2 := Gen.lcc_LCC_cos2_1 s
+       let ms2 := Gen.lcc_LCC_ms2_1 e sin2 cos2
+       let ts2 := Gen.lcc_LCC_ts2_1 s e sin2
+       let ts0 := Gen.lcc_LCC_ts0_1 s e
+       let ns := if gt (Gen.lcc_LCC_cond_gt_1_l s) Gen.lcc_LCC_cond_gt_1_r then Gen.lcc_LCC_NS_1 ms1 ms2 ts1 ts2 else Gen.lcc_LCC_NS_2 sin1
+       let ns := if isNaN ns then Gen.lcc_LCC_NS_3 sin1 else ns
+       let f0 := Gen.lcc_LCC_F0_1 ms1 ns ts1
+       let rh := Gen.lcc_LCC_RH_1 s f0 ts0 ns
+       .ok ⟨s, e, ns, f0, rh⟩) := rfl
+
+theorem guard_initEqdc (s : SR α) :
+    initEqdc s =
+      (if lt (Gen.eqdc_EqdC_cond_lt_1_l s) Gen.eqdc_EqdC_cond_lt_1_r then .error .eqdcParallels else
+       let s := if isNaN s.lat2 then { s with lat2 := Gen.eqdc_EqdC_thisLat2_1 s } else s
+       let temp := Gen.eqdc_EqdC_temp_1 s
+       let s := { s with es := Gen.eqdc_EqdC_thisEs_1 temp }
+       let s := { s with e := Gen.eqdc_EqdC_thisE_1 s }
+       let e0 := Gen.eqdc_EqdC_e0_1 s
+       let e1 := Gen.eqdc_EqdC_e1_1 s
+       let e2 := Gen.eqdc_EqdC_e2_1 s
+       let e3 := Gen.eqdc_EqdC_e3_1 s
+       let sinphi := Gen.eqdc_EqdC_sinphi_1 s
+       let cosphi := Gen.eqdc_EqdC_cosphi_1 s
+       let ms1 := Gen.eqdc_EqdC_ms1_1 s sinphi cosphi
+       let ml1 := Gen.eqdc_EqdC_ml1_1 s e0 e1 e2 e3
+       let ns :=
+         if lt (Gen.eqdc_EqdC_cond_lt_2_l s) Gen.eqdc_EqdC_cond_lt_2_r then Gen.eqdc_EqdC_ns_1 sinphi
+         else
+           let sinphi := Gen.eqdc_EqdC_sinphi_2 s
+           let cosphi := Gen.eqdc_EqdC_cosphi_2 s
+           let ms2 := Gen.eqdc_EqdC_ms2_1 s sinphi cosphi
+           let ml2 := Gen.eqdc_EqdC_ml2_1 s e0 e1 e2 e3
+           Gen.eqdc_EqdC_ns_2 ms1 ms2 ml2 ml1
+       let g := Gen.eqdc_EqdC_g_1 ml1 ms1 ns
+       let ml0 := Gen.eqdc_EqdC_ml0_1 s e0 e1 e2 e3
+       let rh := Gen.eqdc_EqdC_rh_1 s g ml0
+       .ok ⟨s, e0, e1, e2, e3, ns, g, rh⟩) := rfl
+
 end GeomV.C08.Ties
